@@ -364,7 +364,7 @@ impl<K: BinaryDeserializer + Ord, V: BinaryDeserializer> BinaryDeserializer for 
     }
 }
 
-impl<T: BinaryDeserializer + Eq + Hash> BinaryDeserializer for LinkedList<T> {
+impl<T: BinaryDeserializer> BinaryDeserializer for LinkedList<T> {
     fn deserialize(context: &mut DeserializationContext<'_>) -> Result<Self> {
         deserialize_iterator(context).collect()
     }
